@@ -343,3 +343,90 @@ func init() {
 		},
 	})
 }
+
+// lengths: strings, keys, arrays, objects, byte strings and typed arrays
+// whose length sits on a header-width boundary of some format (CBOR 23/24,
+// 255/256, 65535/65536; UBJSON 127/128, 255/256, 32767/32768).
+var boundaryLens = []int{0, 1, 23, 24, 25, 127, 128, 129, 255, 256, 257, 32767, 32768, 32769, 65535, 65536, 65537}
+
+func boundaryStream(r *gen.Rand, shape, n int) val.Stream {
+	pad := func(n int) string {
+		b := make([]byte, n)
+		for i := range b {
+			b[i] = byte('a' + i%26)
+		}
+		return string(b)
+	}
+	switch shape {
+	case 0:
+		return val.Stream{{K: val.EString, S: pad(n)}}
+	case 1:
+		return val.Stream{{K: val.EObjStart, N: 1}, {K: val.EKeyRef, S: pad(n)}, {K: val.EStringRef, S: pad(n)}, {K: val.EObjEnd}}
+	case 2, 3:
+		ann := n
+		if shape == 3 {
+			ann = -1
+		}
+		s := val.Stream{{K: val.EArrStart, N: ann}}
+		for i := 0; i < n; i++ {
+			s = append(s, val.Event{K: val.EUint8, U: uint64(i % 200)})
+		}
+		return append(s, val.Event{K: val.EArrEnd}, val.Event{K: val.EBool, B: true})[: n+2 : n+2]
+	case 4:
+		s := val.Stream{{K: val.EObjStart, N: n}}
+		for i := 0; i < n; i++ {
+			s = append(s, val.Event{K: val.EKey, S: fmt.Sprintf("k%d", i)}, val.Event{K: val.ENil})
+		}
+		return append(s, val.Event{K: val.EObjEnd})
+	case 5:
+		b := make([]byte, n)
+		for i := range b {
+			b[i] = byte(i)
+		}
+		return val.Stream{{K: val.EBytes, X: b}}
+	case 6:
+		a := make([]int16, n)
+		for i := range a {
+			a[i] = int16(i - 300)
+		}
+		return val.Stream{{K: val.EArrStart, N: 2}, {K: val.EInt16Array, X: a}, {K: val.EString, S: "after"}, {K: val.EArrEnd}}
+	case 7:
+		a := make([]string, n)
+		for i := range a {
+			a[i] = fmt.Sprint(i)
+		}
+		return val.Stream{{K: val.EStringArray, X: a}}
+	default:
+		m := make(map[string]uint32, n)
+		for i := 0; i < n; i++ {
+			m[fmt.Sprintf("k%d", i)] = uint32(i)
+		}
+		return val.Stream{{K: val.EUint32Object, X: m}}
+	}
+}
+
+const boundaryShapes = 9
+
+func c07Lengths(c *run.C) {
+	cd := codec.All[c.Idx%3]
+	shape := (c.Idx / 3) % boundaryShapes
+	n := boundaryLens[(c.Idx/(3*boundaryShapes))%len(boundaryLens)]
+	o := codec.JSONOptsFromIndex(c.Idx % 8)
+	s := boundaryStream(c.R, shape, n)
+	c.Begin(map[string]interface{}{"codec": cd.Name, "shape": shape, "length": n})
+	if c.Prop == "C01" {
+		roundTrip(c, cd, o, s)
+	} else {
+		c07One(c, cd, o, s)
+	}
+	c.Observe("boundary_length_cases", 1)
+	c.Nontrivial(gen.Mix(73, uint64(c.Idx)))
+}
+
+func init() {
+	n := 3 * boundaryShapes * len(boundaryLens)
+	for _, id := range []string{"C01", "C07"} {
+		chk := run.Lookup(id)
+		chk.Suites = append(chk.Suites, &run.Suite{Name: "lengths", N: tierN(n, n), Case: c07Lengths, Require: []string{"boundary_length_cases"}})
+	}
+}
